@@ -138,7 +138,8 @@ Print Assumptions C10_stale_key_history.
 (* the ledger component: in every committed state (= every state reachable by deliveries) the ledger is the replay of the
    main chain the store describes: the blocks filed under the heights 1 .. top_h apply one after the other to the genesis
    ledger and the result agrees with the stored ledger on every account (as functions), the delegate table and the staked
-   total.  Premises and proof: Props/C03.v (C03_ledger_is_replay), Proofs/Replay1-5.v. *)
+   total.  Premises and proof: Props/C03.v (C03_ledger_is_replay), Proofs/Replay1-5.v; the premise on the typing of the
+   stored transactions is derived from the byte-level decoder in C03_ledger_is_replay_decoded (Proofs/CodecBridge*.v). *)
 Theorem C10_ledger_is_replay_of_main_chain : forall cfg genesis_addr team_key g n0 ops,
   cfg_ok_emission cfg = true -> cfg_ok_feepos cfg = true ->
   node0 cfg genesis_addr g = Ok n0 -> b_height g = 0 -> b_cd g = b_diff g ->
